@@ -42,6 +42,7 @@ fn exec(req: &str) -> String {
     let sp: u64 = kv.get("sp").map(|v| v.parse().unwrap()).unwrap_or(0);
     let hist: Vec<usize> =
         kv.get("h").unwrap_or(&"").split(':').filter(|x| !x.is_empty()).map(|x| x.parse().unwrap()).collect();
+    let callers: usize = kv.get("callers").map(|v| v.parse().unwrap()).unwrap_or(1);
     let panics: Vec<(usize, usize)> = kv
         .get("panic")
         .unwrap_or(&"")
@@ -100,8 +101,20 @@ fn exec(req: &str) -> String {
         struct Share<'a>(&'a [std::cell::UnsafeCell<usize>]);
         unsafe impl Sync for Share<'_> {}
         let share = Share(&cells);
-        pool.par_extend(&mut v, n, |i| {
+        // Broadcasts may come from different calling threads, one after the
+        // other: odd-numbered broadcasts of a `callers=2` history are issued
+        // from a fresh thread.
+        let from_other = callers > 1 && b % 2 == 1;
+        let caller = if from_other { None } else { Some(caller) };
+        let caller_id = std::sync::Mutex::new(caller);
+        let task = |i: usize| {
             let share = &share;
+            if i == 0 {
+                let mut c = caller_id.lock().unwrap();
+                if c.is_none() {
+                    *c = Some(std::thread::current().id());
+                }
+            }
             shim::user_event(1, i as u32);
             calls[i].fetch_add(1, SeqCst);
             *ids[i].lock().unwrap() = Some((std::thread::current().id(), std::thread::current().name().map(|s| s.to_string())));
@@ -112,7 +125,15 @@ fn exec(req: &str) -> String {
             }
             shim::user_event(2, i as u32);
             i * 10 + 1
-        });
+        };
+        if from_other {
+            std::thread::scope(|sc| {
+                sc.spawn(|| pool.par_extend(&mut v, n, task)).join().unwrap();
+            });
+        } else {
+            pool.par_extend(&mut v, n, task);
+        }
+        let caller = caller_id.lock().unwrap().unwrap();
         // --- the property, evaluated on the run itself
         if v.len() != n + 1 {
             results_ok = false;
@@ -196,8 +217,9 @@ fn gen(rng: &mut rng::Rng, n: usize) -> Vec<String> {
         }
         let sp = if rng.chance(1, 4) { 10 + rng.below(40) } else { 0 };
         out.push(format!(
-            "pool seed={} sp={sp} h={} panic={}",
+            "pool seed={} sp={sp} callers={} h={} panic={}",
             rng.next() >> 16,
+            if rng.chance(1, 3) { 2 } else { 1 },
             h.iter().map(|x| x.to_string()).collect::<Vec<_>>().join(":"),
             if panics.is_empty() { "-".to_string() } else { panics.join(",") }
         ));
